@@ -8,12 +8,12 @@
 package vsim
 
 import (
-	"net/http"
 	"bytes"
 	"crypto/sha256"
 	"encoding/hex"
 	"fmt"
 	"hash"
+	"net/http"
 	"path/filepath"
 	"runtime"
 	"sort"
@@ -101,7 +101,8 @@ type World struct {
 	// PreemptOn: statement-level preemption points (vsim.Preempt, inserted by rewriter rule R9 into
 	// selected files) are scheduling decisions. Off: they cost nothing. Set by the scenario (root)
 	// before it starts the tasks that may reach such points.
-	PreemptOn bool
+	PreemptOn   bool
+	killedNodes map[string]bool // nodes killed so far (their pending AfterFunc timers never fire)
 	// DefaultTransport: what vsim.HTTPTransport (rule R10) hands to code that builds its own http.Transport.
 	DefaultTransport http.RoundTripper
 	// StallPM / StallBudget: at a preemption point the task is, with this probability (per mille, drawn
@@ -534,6 +535,11 @@ func AfterFunc(d time.Duration, fn func()) *time.Timer {
 	return time.AfterFunc(d, func() {
 		id := goid()
 		w.mu.Lock()
+		if w.killedNodes[t.Node] {
+			// the process that armed this timer is dead: its timers never fire
+			w.mu.Unlock()
+			return
+		}
 		w.tasks = append(w.tasks, t)
 		w.byGoid[id] = t
 		w.mu.Unlock()
@@ -559,6 +565,10 @@ func AfterFunc(d time.Duration, fn func()) *time.Timer {
 // parked point reached by a straggler unwinds it too. Root only.
 func (w *World) KillNode(node string) {
 	w.mu.Lock()
+	if w.killedNodes == nil {
+		w.killedNodes = map[string]bool{}
+	}
+	w.killedNodes[node] = true
 	var wake []*entry
 	for _, t := range w.tasks {
 		if t.Node == node && !t.done {
